@@ -610,7 +610,69 @@ class Interp:
             head = new_head
         return head, exit_state
 
+    def _syntactic_unroll(self, s):
+        """A `for` over a literal table of names / constants (directly, or through a local bound once to the literal):
+        the bodies with the loop variables replaced by the table entries, one per row -- so that a test on the loop
+        variable (`if value is None: raise`) refines the variable the row names.  None if the loop is not of that form."""
+        import copy
+
+        it = s.iter
+        fr = self.stack[-1] if self.stack else None
+        f = getattr(fr, "func", None)
+        if isinstance(it, ast.Name) and f is not None:
+            defs = [n.value for n in f.own_nodes() if isinstance(n, ast.Assign) and len(n.targets) == 1 and isinstance(n.targets[0], ast.Name) and n.targets[0].id == it.id]
+            stores = [n for n in f.own_nodes() if isinstance(n, ast.Name) and n.id == it.id and isinstance(n.ctx, ast.Store)]
+            if len(defs) != 1 or len(stores) != 1:
+                return None
+            it = defs[0]
+        if not isinstance(it, (ast.Tuple, ast.List)) or not it.elts or len(it.elts) > 12:
+            return None
+        tnames = [s.target] if isinstance(s.target, ast.Name) else (list(s.target.elts) if isinstance(s.target, (ast.Tuple, ast.List)) else None)
+        if tnames is None or not all(isinstance(t, ast.Name) for t in tnames):
+            return None
+        rows = []
+        for e in it.elts:
+            cells = [e] if isinstance(s.target, ast.Name) else (list(e.elts) if isinstance(e, (ast.Tuple, ast.List)) else None)
+            if cells is None or len(cells) != len(tnames) or not all(isinstance(c, (ast.Name, ast.Constant)) for c in cells):
+                return None
+            rows.append(cells)
+        if not any(isinstance(c, ast.Name) for r in rows for c in r):
+            return None  # nothing to gain over the value-based unrolling
+        names = {t.id for t in tnames}
+        for b in s.body:
+            for x in ast.walk(b):
+                if isinstance(x, ast.Name) and x.id in names and isinstance(x.ctx, ast.Store):
+                    return None
+                if isinstance(x, (ast.Break, ast.Continue)):
+                    return None
+        # the names in the rows must not be rebound by the body either
+        rownames = {c.id for r in rows for c in r if isinstance(c, ast.Name)}
+        for b in s.body:
+            for x in ast.walk(b):
+                if isinstance(x, ast.Name) and x.id in rownames and isinstance(x.ctx, ast.Store):
+                    return None
+        out = []
+        for cells in rows:
+            sub = {t.id: c for t, c in zip(tnames, cells)}
+
+            class _S(ast.NodeTransformer):
+                def visit_Name(self_, n):
+                    if n.id in sub and isinstance(n.ctx, ast.Load):
+                        return ast.copy_location(copy.deepcopy(sub[n.id]), n)
+                    return n
+
+            out.append([ast.fix_missing_locations(_S().visit(copy.deepcopy(b))) for b in s.body])
+        return out
+
     def s_For(self, s, st):
+        bodies = self._syntactic_unroll(s) if not s.orelse else None
+        if bodies is not None:
+            cur = st
+            for body in bodies:
+                cur = self.block(body, cur)
+                if cur.dead:
+                    break
+            return cur
         itv = self.eval(s.iter, st)
         elem = self.iter_elem(itv, s.iter, st)
         const_items = self.const_iter(s.iter, st)
